@@ -357,6 +357,29 @@ class Extractor:
         if not any(x[0] == "schedule_push" for x in ev.effects) or not any(x == ("selfcall", "schedule_thread") for x in ev.effects):
             raise Unsupported("reschedule_queue: rescheduling does not push on the schedule and call schedule_thread")
 
+    def future_drop(self):
+        """`Drop for SchedulerFuture`: what it does to the queue state, and that it only looks when the future was draining"""
+        body, toks = self.src.fn_body("scheduler/scheduler_future.rs", "drop", impl_of="SchedulerFuture")
+        node = find_match_on(body, lambda p: p == "core.state")
+        rows = {}
+        for s_, p_, e_ in self.inputs(with_own=True):
+            ev = Evaluator(self.env("core.state", s_, p_, None), mcall=std_mcall)
+            r = ev.run(node)
+            if r[0] != "value" or not isinstance(r[1], bool):
+                raise Unsupported("SchedulerFuture::drop(%s): %r" % (s_, r))
+            rows[(s_, p_, e_)] = "(%s, %s)" % (lean_state(ev.env["core.state"], self.PN), "true" if r[1] else "false")
+        self.emit_table("futureDropDecide", "(self : Nat) : QState → QState × Bool", rows,
+                        "scheduler_future.rs `Drop for SchedulerFuture` (taken only when the future was draining the queue): new state and whether the queue is rescheduled", with_own=True)
+        names = [t[1] for t in toks]
+        # the whole body is `if self.draining { ... }` and a true result is followed by reschedule_queue
+        guarded = names[1:5] == ["if", "self", ".", "draining"]
+        resched = "reschedule_queue" in names
+        self.out.append("/-- `Drop for SchedulerFuture` touches the queue only when the future was draining it, and reschedules the queue it hands back -/")
+        self.out.append("def futureDropGuarded : Bool := %s" % ("true" if guarded else "false"))
+        self.out.append("def futureDropReschedules : Bool := %s\n" % ("true" if resched else "false"))
+        self.digest["facts"]["futureDropGuarded"] = guarded
+        self.digest["facts"]["futureDropReschedules"] = resched
+
     def next_to_run(self):
         def cl(ev, r, s):
             if r[0] == "return":
@@ -818,6 +841,7 @@ class Extractor:
         self.sync_like("sync_no_panic", "syncNoPanicDecide", {"immediate", "drain", "background", "refuse"}, "desync_scheduler.rs `sync_no_panic` (used by Drop while panicking)")
         self.sync_like("try_sync", "trySyncDecide", {"immediate", "busy", "panic"}, "desync_scheduler.rs `try_sync`")
         self.poll_decide()
+        self.future_drop()
         self.claim()
         self.reschedule()
         self.next_to_run()
